@@ -329,9 +329,6 @@ func runConcurrent(t lib.TB, test string, cs concCaseT) (nt bool) {
 				m.dead[r] = &deadT{content: v.content}
 			}
 		}
-		for _, d := range m.dead {
-			d.cold = true
-		}
 		if msg := checkReads(m, cs.Cfg, get, iterate); msg != "" {
 			fail("after restart: %s", msg)
 		}
